@@ -765,8 +765,8 @@ func genEthTx(t *rapid.T, st *genState) TxSpec {
 	}
 
 	// signature
-	sigs := []string{"ok", "none", "badv", "zero-r", "zero-s", "high-s", "eip155", "tamper", "trunc", "extra", "to19"}
-	s.Sig = sigs[pick(t, "sig", 84, 3, 2, 1, 1, 2, 2, 2, 1, 1, 1)]
+	sigs := []string{"ok", "none", "badv", "zero-r", "zero-s", "high-s", "eip155", "tamper", "trunc", "extra", "to19", "big-r", "big-s"}
+	s.Sig = sigs[pick(t, "sig", 84, 3, 2, 1, 1, 2, 2, 2, 1, 1, 1, 2, 1)]
 	if s.Sig != "ok" {
 		s.Arg = rapid.IntRange(0, 255).Draw(t, "sigArg")
 	}
